@@ -968,6 +968,22 @@ def _enum_sweeps(tier, rng):
             "(ok @_+0 (Handshake (CertificateRequest [64] (Some [%d]) [])))" % v)
         add("parse_tls_extension 000a00060004%04x0017" % v, "(ok @_+0 (EllipticCurves [%d 23]))" % v)
         add("parse_tls_extension 000d00040002%04x" % v, "(ok @_+0 (SignatureAlgorithms [%d]))" % v)
+        # both algorithm bytes of a DigitallySigned together (all 65536 pairs), alone and as the signature of an SCT
+        add("parse_digitally_signed %04x0001aa" % v, "(ok @_+0 (Signed (Some ( %d %d)) #4:aa))" % (v >> 8, v & 255))
+        if v % 8 == k or tier == "thorough":
+            add("parse_ct_signed_certificate_timestamp 002f00" + R + "0000000000000001" + "0000" + "%04x" % v + "0000",
+                "(ok @_+0 (SCT 0 #3:%s 1 #_: (Signed (Some ( %d %d)) #_:)))" % (R, v >> 8, v & 255))
+            add("parse_content_and_signature_dh 1 000117000102000105%04x000100" % v, "(ok @_+0 ( (DH #2:17 #5:02 #8:05) (Signed (Some ( %d %d)) #13:00)))" % (v >> 8, v & 255))
+    # adjacent enumerated fields together: the record header's content type and version (code that looks at one may look
+    # at the other): every content type x a set of versions, and every version x content types from each region
+    vset = [0x0000, 0x0001, 0x0002, 0x0100, 0x0101, 0x0200, 0x0300, 0x0301, 0x0302, 0x0303, 0x0304, 0x7f12, 0x7f1c, 0x8001, 0xfefd, 0xfeff, 0xff01, 0xffff]
+    for t in range(256):
+        for v in vset:
+            add("parse_tls_record_header %02x%04x0001" % (t, v), "(ok @_+0 (Hdr %d %d 1))" % (t, v))
+            add("parse_tls_raw_record %02x%04x0001aa" % (t, v), "(ok @_+0 (Raw (Hdr %d %d 1) #5:aa))" % (t, v))
+    for v in u16s():
+        for t in (0x00, 0x80, 0xff) if (v % 4 == k or tier == "thorough") else (rng.choice([0x00, 0x80, 0xff, 0x81, 0x7f]),):
+            add("parse_tls_encrypted %02x%04x0001aa" % (t, v), "(ok @_+0 (Encrypted (Hdr %d %d 1) #5:aa))" % (t, v))
     return out
 
 PROPS["C09"] = dict(
